@@ -30,9 +30,26 @@ instance : Scalar (Dual K) where
   cos a := ⟨Scalar.cos a.re, -(Scalar.sin a.re * a.du)⟩
   sqrt a := ⟨Scalar.sqrt a.re, a.du / (Scalar.ofNat 2 * Scalar.sqrt a.re)⟩
   atan2 y x := ⟨Scalar.atan2 y.re x.re, (x.re * y.du - y.re * x.du) / (x.re * x.re + y.re * y.re)⟩
-  abs a := if Scalar.lt a.re (Scalar.ofNat 0) then ⟨-a.re, -a.du⟩ else a
+  abs a := ⟨Scalar.abs a.re, if Scalar.lt a.re (Scalar.ofNat 0) then -a.du else a.du⟩
   lt a b := Scalar.lt a.re b.re
   le a b := Scalar.le a.re b.re
   eps := ⟨Scalar.eps, Scalar.ofNat 0⟩
+  -- the value part of every operation is the base scalar's own operation on the value parts
+  -- (so that `re (f x) = f (re x)` for every model function `f`, Properties/C12.lean)
+  cosUnq a := ⟨Scalar.cosUnq a.re, -(Scalar.sinUnq a.re * a.du)⟩
+  sinUnq a := ⟨Scalar.sinUnq a.re, Scalar.cosUnq a.re * a.du⟩
+  so3LogJCoeff theta2 theta :=
+    ⟨Scalar.so3LogJCoeff theta2.re theta.re,
+     -- derivative of 1/θ² − cos(θ/2)/(2θ sin(θ/2)) by the quotient rules above
+     let two : K := Scalar.ofNat 2
+     let h := theta.re / two
+     let hd := (theta.du * two) / (two * two)
+     let c := Scalar.cos h
+     let s := Scalar.sin h
+     let cd := -(s * hd)
+     let sd := c * hd
+     let den := two * theta.re * s
+     let dend := (two * theta.du) * s + (two * theta.re) * sd
+     (-(theta2.du)) / (theta2.re * theta2.re) - (cd * den - c * dend) / (den * den)⟩
 
 end Manif
